@@ -191,4 +191,14 @@ def filterResults (eqGroups : List (List Int)) (hits : List FHit) : Option (List
   -- the assertion sits inside the pass, after the groups of a qualifying gene were processed
   if out.isEmpty && !hits.isEmpty then none else some out
 
+/-- `filter_results` over the whole `results_by_id`, in the loop order of the code: equivalence groups outermost,
+    genes (dict order) inside; every gene's list is rewritten in place by each pass -/
+def filterRecordPasses (eqGroups : List (List Int)) (genes : List (List FHit)) : List (List FHit) :=
+  eqGroups.foldl (fun gs eq => gs.map fun hits => filterPass hits eq) genes
+
+/-- … with the `assert results_by_id[cds]` of any gene making the whole call fail -/
+def filterRecord (eqGroups : List (List Int)) (genes : List (List FHit)) : Option (List (List FHit)) :=
+  let out := filterRecordPasses eqGroups genes
+  if (genes.zip out).any (fun (g, o) => o.isEmpty && !g.isEmpty) then none else some out
+
 end ASV.HitFilter
